@@ -1,6 +1,7 @@
 import N0Verif.Proofs.XPathCreate
 import N0Verif.Proofs.XPathHistory
 import N0Verif.Proofs.XPathCreate2
+import N0Verif.Proofs.XPathPureApi
 /-!
 # C03 — assigning to a missing xpath creates exactly the missing chain; `new()` appends
 
@@ -304,17 +305,21 @@ theorem C03_create_then_read (cls : Cls) (kvs : List (Str × Val)) (q : Pos) (kc
    C03_read_back cls kvs q kcls nkvs s steps v cur' t' fuel hp hget hfirst hidx hsteps hnq hnp hcreate hset hf2⟩
 
 /-- **full statement (no debris).**  A `d[xpath] = v` that raises leaves the tree as it was — every tree,
-every path text, every value, every exception.  With fix C03-a `_add` no longer leaves anything behind; the
-statement is still **false** for one reason that is not in `_add`: the `new()` step of the *search* converts
-a single value into a one-element list before anything is created (finding C04-a, "the search writes"),
-and that conversion stays when the creation is refused afterwards (`C03_err_wrap_stays_cex`). -/
+every path text, every value, every exception.  Proved: `C03_err_leaves_tree` (fix C03-a: `_add` leaves
+nothing behind; fix C04-a: the search writes nothing). -/
 def C03_err_leaves_tree_stmt : Prop :=
   ∀ (t t' v : Val) (xp : Str) (fuel : Nat) (e : PyErr), setItem fuel t xp v = (t', .error e) → t' = t
 
-/-- **C03 (a refused assignment leaves the tree unchanged), proved for every tree, path text, value and
-exception** under the one hypothesis that the search itself returned the tree it was given (`hpure`; it
-always does unless a `new()` step meets a single value, see `C03_err_leaves_tree_stmt`).  Nothing is
-assumed about the path: creation paths of every shape, wildcards, conditions, malformed text. -/
+/-- after a raising `d[xpath] = v` the tree is the tree before the call or the one `_find` handed to
+`_add` — whatever `_add` and the store did is gone (fix C03-a alone) -/
+theorem C03_err_tree_is_search_tree (t t' v : Val) (xp : Str) (fuel : Nat) (e : PyErr)
+    (h : setItem fuel t xp v = (t', .error e)) :
+    t' = t ∨ ∃ r, findD fuel t [] false true (tokenize (if startsWith xp ['?'] then xp.drop 1 else xp)) (.at []) true
+      slash = .ok (t', r) :=
+  setItem_error_tree fuel t xp v t' e h
+
+/-- the form of the statement that needs fix C03-a only: unchanged whenever the search returned the tree
+it was given (kept so that the two repairs stay separable; `hpure` always holds after fix C04-a) -/
 theorem C03_err_leaves_tree_partial (t t' v : Val) (xp : Str) (fuel : Nat) (e : PyErr)
     (h : setItem fuel t xp v = (t', .error e))
     (hpure : ∀ root1 r, findD fuel t [] false true (tokenize (if startsWith xp ['?'] then xp.drop 1 else xp)) (.at [])
@@ -323,13 +328,16 @@ theorem C03_err_leaves_tree_partial (t t' v : Val) (xp : Str) (fuel : Nat) (e : 
   · exact h1
   · exact hpure t' r hr
 
-/-- the same, for the tree the search returns: after a raising `d[xpath] = v` the tree is the tree
-before the call or the one `_find` handed to `_add` — whatever `_add` and the store did is gone -/
-theorem C03_err_tree_is_search_tree (t t' v : Val) (xp : Str) (fuel : Nat) (e : PyErr)
-    (h : setItem fuel t xp v = (t', .error e)) :
-    t' = t ∨ ∃ r, findD fuel t [] false true (tokenize (if startsWith xp ['?'] then xp.drop 1 else xp)) (.at []) true
-      slash = .ok (t', r) :=
-  setItem_error_tree fuel t xp v t' e h
+/-- **C03 (a refused assignment leaves the tree unchanged), the full statement, proved**: every tree,
+every path text (creation paths of every shape, wildcards, conditions, malformed text), every value,
+every exception class. -/
+theorem C03_err_leaves_tree : C03_err_leaves_tree_stmt := by
+  intro t t' v xp fuel e h
+  refine C03_err_leaves_tree_partial t t' v xp fuel e h ?_
+  intro root1 r hfind
+  have := findD_any fuel t [] true true (tokenize (if startsWith xp ['?'] then xp.drop 1 else xp)) (.at []) slash
+  rw [hfind] at this
+  exact this.1
 
 def exTree : Val := .dict .n0 [(['a'], .dict .n0 [])]
 
@@ -352,15 +360,7 @@ theorem C03_refused_leaves_nothing :
   decide
 /-- the same through the theorem -/
 example : (setItem 40 exTree ['n', '/', 'm', '[', '3', ']'] (.str ['V'])).1 = exTree :=
-  C03_err_leaves_tree_partial exTree _ (.str ['V']) ['n', '/', 'm', '[', '3', ']'] 40 .SyntaxError
-    C03_refused_leaves_nothing (by
-      intro root1 r h
-      have h2 : (findD 40 exTree [] false true (tokenize ['n', '/', 'm', '[', '3', ']']) (.at []) true slash).map (·.1)
-          = .ok exTree := by decide
-      rw [show (if startsWith ['n', '/', 'm', '[', '3', ']'] ['?'] = true then List.drop 1 ['n', '/', 'm', '[', '3', ']']
-            else ['n', '/', 'm', '[', '3', ']']) = ['n', '/', 'm', '[', '3', ']'] from rfl] at h
-      rw [h] at h2
-      exact Except.ok.inj h2)
+  C03_err_leaves_tree exTree _ (.str ['V']) ['n', '/', 'm', '[', '3', ']'] 40 .SyntaxError C03_refused_leaves_nothing
 
 /-- former witness of C03-b (silent misplacement): `d['c[new()][0]/m'] = v` now creates `c: [[{m: v}]]` -/
 theorem C03_nested_idx_ok :
@@ -375,17 +375,16 @@ theorem C03_new_in_plain_list_ok :
       = (.dict .n0 [(['x'], .list .plain [.list .plain [.str ['V']]])], .ok ()) := by
   decide
 
-/-- what still refutes `C03_err_leaves_tree_stmt`: the search converts the single value `k` into `[k]`, then
-`_add` refuses `x[5]` — the placeholder `_add` had appended is gone, the conversion stays (C04-a) -/
-theorem C03_err_wrap_stays_cex :
+/-- the former finding C03-d: the search no longer converts the single value `k` before `_add` refuses
+`x[5]` — the tree is exactly the one before the call (fix C04-a; `_add` converts only when it succeeds) -/
+theorem C03_refused_no_wrap :
     setItem 40 (.dict .n0 [(['k'], .int 1)]) ['k', '[', 'n', 'e', 'w', '(', ')', ']', '/', 'x', '[', '5', ']'] (.str ['V'])
-      = (.dict .n0 [(['k'], .list .n0 [.int 1])], .error .SyntaxError) := by
+      = (.dict .n0 [(['k'], .int 1)], .error .SyntaxError) := by
   decide
-
-theorem C03_err_leaves_tree_false : ¬ C03_err_leaves_tree_stmt := by
-  intro h
-  have := h _ _ _ _ _ _ C03_err_wrap_stays_cex
-  revert this; decide
+/-- … while the honoured creation on the same name converts and appends -/
+example : setItem 40 (.dict .n0 [(['k'], .int 1)]) ['k', '[', 'n', 'e', 'w', '(', ')', ']', '/', 'x'] (.str ['V'])
+      = (.dict .n0 [(['k'], .list .n0 [.int 1, .dict .n0 [(['x'], .str ['V'])]])], .ok ()) := by
+  decide
 
 /-! ## Non-vacuity: the theorems instantiated on concrete trees (explicit char lists) -/
 
